@@ -1,6 +1,11 @@
 package sched
 
-import "fmt"
+import (
+	"fmt"
+	"os"
+)
+
+var traceExplore = os.Getenv("VERIF_SCHED_TRACE") != ""
 
 // Result summarises an exploration.
 type Result struct {
@@ -18,6 +23,15 @@ type Result struct {
 // false to stop the exploration (a violation was recorded).
 // budget is the maximum number of executions (0 = unlimited).
 func Explore(bound int, maxSteps int, budget int, mk func() (body func(), check func(s *S) bool)) Result {
+	return ExploreSharded(bound, maxSteps, budget, nil, mk)
+}
+
+// ExploreSharded is Explore for several cooperating processes: every process
+// runs the default schedule; own is then asked once, in a deterministic order,
+// for every subtree that starts with a single deviation from the default
+// schedule, and the process explores only the subtrees it owns. The union
+// over the processes is exactly the space Explore covers.
+func ExploreSharded(bound int, maxSteps int, budget int, own func() bool, mk func() (body func(), check func(s *S) bool)) Result {
 	res := Result{Bound: bound, Complete: true}
 	type frame struct {
 		prefix []int
@@ -33,6 +47,9 @@ func Explore(bound int, maxSteps int, budget int, mk func() (body func(), check 
 			return res
 		}
 		body, check := mk()
+		if traceExplore {
+			fmt.Fprintf(os.Stderr, "sched: run %d prefix %v\n", res.Executions, f.prefix)
+		}
 		s := RunExpect(f.prefix, f.expect, maxSteps, false, body)
 		res.Executions++
 		res.Points += int64(s.Steps)
@@ -66,6 +83,9 @@ func Explore(bound int, maxSteps int, budget int, mk func() (body func(), check 
 				// factorial in the number of symmetric runners.)
 				c := cost + 1
 				if c > bound {
+					continue
+				}
+				if own != nil && len(f.prefix) == 0 && !own() {
 					continue
 				}
 				np := make([]int, i+1)
